@@ -22,7 +22,10 @@ Case(e) ==
    THEN [ev |-> "Extract", id |-> e.id, nas |-> <<>>, transfer |-> SetupRequestTransfer(e), exp |-> [ip |-> <<>>, teid |-> e.teid, upf |-> e.upf]]
    ELSE
    LET ies == {e.ies[i] : i \in 1..Len(e.ies)}
-       inner == NasEncode(NasPduAcceptIes(e, e.psi, e.pti, ies))
+       \* (tail: information elements of later releases of table 8.3.2.1.1 behind the ones this specification tabulates - 5GSM network
+       \* feature support, serving PLMN rate control, ATSSS container, header compression configurations: type-length-value elements a
+       \* receiver of an earlier release skips, TS 24.501 7.6.1; their octets are given by the skeleton)
+       inner == NasEncode(NasPduAcceptIes(e, e.psi, e.pti, ies)) \o (IF "tail" \in DOMAIN e THEN e.tail ELSE <<>>)
        dlt == NasEncode(NasDlTransport(inner, e.psi))
        prot == DlProtect(Sec0(e.dlCount), dlt, e.hdr)
    IN [ev |-> "Extract", id |-> e.id, nas |-> prot.bytes, transfer |-> SetupRequestTransfer(e),
